@@ -1097,7 +1097,15 @@ impl Gen {
                     // the next store / removal runs under a file size limit (no room to grow the
                     // map, or for the engine to extend its file); a store is retried afterwards
                     let mode = self.rng.below(4) as u8;
-                    match self.rng.weighted(&[45, 25, 20, 10]) {
+                    match self.rng.weighted(&[42, 24, 18, 10, 6]) {
+                        4 => {
+                            let pk = *self.rng.pick(&self.authors);
+                            ops.push(Op::Fsize(mode));
+                            ops.push(Op::Vanish(pk));
+                            // then again with the limit lifted (the job is finished)
+                            let _ = self.model.apply_vanish(&pk);
+                            ops.push(Op::Vanish(pk));
+                        }
                         0 => {
                             let e = if self.rng.chance(1, 2) { self.new_version() } else { self.new_event() };
                             ops.push(Op::Fsize(mode));
